@@ -20,7 +20,7 @@
     operations (if any) set the empty tape this is part of the invariant
     [AInvT]. *)
 From DD Require Export Sift10 Dynamic2.
-From DD Require Import C01proof.
+From DD Require Import C01proof Dynamic3.
 Local Open Scope string_scope.
 
 Definition is_areorder (o : aop) : bool :=
@@ -370,7 +370,7 @@ Proof.
     rewrite onode_of_bind, Ew. by rewrite check_in_bind by done.
   - cbn [bind ret]. rewrite onode_of_bind, Ev. rewrite check_in_bind by done.
     rewrite onode_of_bind. done.
-  - cbn [bind ret]. rewrite onode_of_bind. cbn [bind ret]. rewrite onode_of_bind. done.
+  - by rewrite arity_ok_None_Some in Har.
 Qed.
 
 (** a call that [apply] rejects (unknown operator, wrong arity) is a
@@ -388,3 +388,306 @@ Proof.
     by intros [= <- <-]. }
   destruct hv as [h|], v as [v|]; try done. cbn in Ev. by rewrite Ev.
 Qed.
+
+(** *** [bdd.let(definitions, u)] *)
+Definition alet_empty (d : alet_arg) : bool :=
+  match d with ALetBool [] | ALetRef [] | ALetName [] => true | _ => false end.
+(** the definitions with the handles looked up *)
+Definition alet_nodes (a : ast) (d : alet_arg) (d' : let_arg) : Prop :=
+  match d, d' with
+  | ALetBool l, LetBool l' => l' = l
+  | ALetName l, LetName l' => l' = l
+  | ALetRef l, LetRef l' =>
+      Forall2 (fun p q => q.1 = p.1 ∧ handles a !! p.2 = Some q.2) l l'
+  | _, _ => False
+  end.
+Definition alet_declared (s : st) (d : alet_arg) : Prop :=
+  match d with
+  | ALetBool l => Forall (fun p => is_Some (vars s !! p.1)) l
+  | ALetRef l => Forall (fun p => is_Some (vars s !! p.1)) l
+  | ALetName l => ∀ x y, (x, y) ∈ l → is_Some (vars s !! y)
+  end.
+
+Lemma ret_bind {S A B} (x : A) (k : A → M S B) s : bind (ret x) k s = k x s.
+Proof. done. Qed.
+
+Lemma mapM_nodes a (l : list (nat * nat)) (l' : list (nat * Z)) :
+  Forall2 (fun p q => q.1 = p.1 ∧ handles a !! p.2 = Some q.2) l l' →
+  mapM (fun '(x, h) => n <- node_of h ;; ret (x, n)) l a = (Ok l', a).
+Proof.
+  induction 1 as [|[x h] [x' n] l l' [E1 E2] _ IH]; cbn [mapM]; [done|].
+  cbn in E1, E2. subst x'. rewrite Cofactor.bind_assoc, node_of_bind, E2.
+  by rewrite ret_bind, (bind_ok _ _ _ _ _ IH).
+Qed.
+
+Lemma let_ok_nodes a (l : list (nat * nat)) (l' : list (nat * Z)) :
+  AInvD a → Forall2 (fun p q => q.1 = p.1 ∧ handles a !! p.2 = Some q.2) l l' →
+  Forall (fun p => is_Some (vars (mgr a) !! p.1)) l →
+  Forall (fun p => is_Some (vars (mgr a) !! p.1) ∧ valid (mgr a) p.2 ∧
+                   heldn (hledger a) (absn p.2)) l'.
+Proof.
+  intros (_&_&_&Hv&_). induction 1 as [|p q l l' [E1 E2] _ IH]; intros Hd; [done|].
+  apply Forall_cons in Hd as [Hp Hd]. apply Forall_cons. split; [|by apply IH].
+  rewrite E1. split; [done|]. split; [by apply (Hv p.2)|by apply (held_handle a p.2)].
+Qed.
+
+Theorem a_let_dyn d hu a r a' u d' :
+  AInvD a → handles a !! hu = Some u → alet_empty d = false →
+  alet_nodes a d d' → alet_declared (mgr a) d →
+  a_let d hu a = (r, a') →
+  dyn_out a (fun x s' => ∀ ρ, denv s' x ρ = denv (mgr a) u (let_sem (mgr a) d' ρ)) r a'.
+Proof.
+  intros HA Eu Hne Hn Hd. pose proof HA as (HI&Hr&HC&Hv&_).
+  assert (Hgo : let_ok (hledger a) (mgr a) d' →
+    (r0 <- lift (let_ d' u) ;; wrap r0) a = (r, a') →
+    dyn_out a (fun x s' => ∀ ρ, denv s' x ρ = denv (mgr a) u (let_sem (mgr a) d' ρ)) r a').
+  { intros Hok. apply lift_wrap_dyn; [done|apply (stable_eq (fun ρ => denv _ _ _))|].
+    intros r0 s' E.
+    exact (let_dynamic _ _ d' u r0 s' sifting_ok'_holds HI HC Hr (Hv _ _ Eu)
+             (held_handle a _ _ Eu) Hok E). }
+  unfold a_let. rewrite node_of_bind, Eu. rewrite check_in_bind by (by apply (Hv hu)).
+  destruct d as [[|p l]|[|p l]|[|p l]]; try discriminate Hne;
+    destruct d' as [l'|l'|l']; try done; cbn [alet_nodes] in Hn; cbn [alet_declared] in Hd.
+  - subst l'. by apply Hgo.
+  - rewrite (bind_ok _ _ _ _ _ (mapM_nodes a _ _ Hn)). apply Hgo. cbn [let_ok].
+    by apply (let_ok_nodes a (p :: l)).
+  - subst l'. by apply Hgo.
+Qed.
+
+(** [let({}, u)] returns the very same [Function] *)
+Theorem a_let_empty d hu a r a' :
+  alet_empty d = true → a_let d hu a = (r, a') →
+  a' = a ∧ (r = Ok hu ∨ r = Err EKey ∨ r = Err EValue).
+Proof.
+  intros He. unfold a_let. rewrite node_of_bind.
+  destruct (handles a !! hu) as [u|]; [|intros [= <- <-]; auto].
+  unfold check_in, bind, get. destruct (mem u (mgr a)); cbn [ensure ret raise];
+    [|intros [= <- <-]; auto].
+  destruct d as [[|p l]|[|p l]|[|p l]]; try discriminate He; intros [= <- <-]; auto.
+Qed.
+
+(** *** Switching dynamic reordering on and off *)
+Lemma AInvD_same a s' : AInvD a → same_tables (mgr a) s' → refc s' = refc (mgr a) →
+  rctx s' = false → AInvD (a <| mgr := s' |>) ∧ AKeepAll a (a <| mgr := s' |>).
+Proof.
+  intros (HI&Hr&HC&Hv&Hf) Hs Hrf Hr'. pose proof Hs as (E1&_&_&_&_&E6&E7).
+  assert (Hv' : ∀ h u, handles a !! h = Some u → valid s' u).
+  { intros h u Hu. specialize (Hv h u Hu). unfold valid in *. by rewrite E1. }
+  split.
+  - split; [by apply (Inv_same (mgr a))|]. split; [done|].
+    split; [by apply (Counts_same (mgr a))|]. split; [exact Hv'|done].
+  - intros h u Hu. split; [done|]. split; [by apply (Hv' h)|]. intros ρ. by apply denv_same.
+Qed.
+
+Theorem configure_dyn w b a r a' :
+  AInvD a → run_aop w (AConfigure b) a = (r, a') →
+  AInvD a' ∧ AKeepAll a a' ∧
+  r = Ok (VB (bool_decide (is_Some (last_len (mgr a))))) ∧
+  last_len (mgr a') = match b with
+                      | None => last_len (mgr a)
+                      | Some true => Some (Nat.max REORDER_STARTS (len (mgr a)))
+                      | Some false => None
+                      end.
+Proof.
+  intros HA. cbn [run_aop]. unfold bind, lift, configure, get.
+  destruct b as [[|]|]; cbn [modify ret]; intros [= <- <-].
+  - destruct (AInvD_same a ((mgr a) <| last_len :=
+        Some (Nat.max REORDER_STARTS (len (mgr a))) |>) HA) as [? ?];
+      [by repeat split|done|apply HA|done].
+  - destruct (AInvD_same a ((mgr a) <| last_len := None |>) HA) as [? ?];
+      [by repeat split|done|apply HA|done].
+  - destruct (AInvD_same a (mgr a) HA) as [? ?]; [by repeat split|done|apply HA|done].
+Qed.
+
+Theorem set_last_len_dyn w l a r a' :
+  AInvD a → run_aop w (ASetLastLen l) a = (r, a') →
+  AInvD a' ∧ AKeepAll a a' ∧ r = Ok VU ∧ last_len (mgr a') = l.
+Proof.
+  intros HA. cbn [run_aop]. unfold bind, lift. cbn [modify ret]. intros [= <- <-].
+  destruct (AInvD_same a ((mgr a) <| last_len := l |>) HA) as [? ?];
+    [by repeat split|done|apply HA|]. done.
+Qed.
+
+(** ** Dynamic reordering enabled, TOTAL: any arguments, either outcome.
+
+    [Dynamic3.dsafe] gives, for every decorated operation of [dd.bdd] with
+    ARBITRARY arguments and an empty oracle tape: the manager stays well
+    formed with the same ledger, every held node keeps number and function,
+    and neither the reordering signal nor the oracle error reaches the
+    caller.  The nodes of the live handles are held, so the wrapper
+    invariant and every live [Function] survive. *)
+Definition AInvDT (a : ast) : Prop := AInvD a ∧ tape (mgr a) = [].
+
+Definition AStepD (a a' : ast) : Prop :=
+  AInvDT a' ∧ AKeepAll a a' ∧ next_hid a ≤ next_hid a'.
+
+Lemma AKeepAll_refl a : AInvD a → AKeepAll a a.
+Proof. intros (_&_&_&Hv&_) h u Hu. split; [done|]. split; [by apply (Hv h)|done]. Qed.
+Lemma AKeepAll_trans a1 a2 a3 : AKeepAll a1 a2 → AKeepAll a2 a3 → AKeepAll a1 a3.
+Proof.
+  intros H1 H2 h u Hu. destruct (H1 h u Hu) as (Hu2&_&HD1).
+  destruct (H2 h u Hu2) as (?&?&HD2). split; [done|]. split; [done|].
+  intros ρ. by rewrite HD2.
+Qed.
+Lemma AStepD_refl a : AInvDT a → AStepD a a.
+Proof. intros HA. split; [done|]. split; [by apply AKeepAll_refl, HA|lia]. Qed.
+Lemma AStepD_trans a1 a2 a3 : AStepD a1 a2 → AStepD a2 a3 → AStepD a1 a3.
+Proof.
+  intros (_&H1&?) (?&H2&?). split; [done|]. split; [by apply (AKeepAll_trans a1 a2)|lia].
+Qed.
+
+Definition adsafe {A} (m : MA A) : Prop :=
+  ∀ a r a', AInvDT a → m a = (r, a') →
+    AStepD a a' ∧ r ≠ Err ENeedsReordering ∧ r ≠ Err EOracle.
+
+Lemma adsafe_ret {A} (x : A) : adsafe (ret x).
+Proof. intros a r a' HA [= <- <-]. split; [by apply AStepD_refl|done]. Qed.
+Lemma adsafe_raise {A} e : e ≠ ENeedsReordering → e ≠ EOracle → adsafe (raise (A:=A) e).
+Proof.
+  intros ? ? a r a' HA [= <- <-]. split; [by apply AStepD_refl|]. split; congruence.
+Qed.
+Lemma adsafe_get : adsafe (get (S:=ast)).
+Proof. intros a r a' HA [= <- <-]. split; [by apply AStepD_refl|done]. Qed.
+Lemma adsafe_ensure e b : e ≠ ENeedsReordering → e ≠ EOracle → adsafe (ensure (S:=ast) e b).
+Proof. intros. destruct b; [apply adsafe_ret|by apply adsafe_raise]. Qed.
+Lemma adsafe_of_opt {A} e (o : option A) :
+  e ≠ ENeedsReordering → e ≠ EOracle → adsafe (of_opt (S:=ast) e o).
+Proof. intros. destruct o; [apply adsafe_ret|by apply adsafe_raise]. Qed.
+Lemma adsafe_bind {A B} (m : MA A) (f : A → MA B) :
+  adsafe m → (∀ x, adsafe (f x)) → adsafe (bind m f).
+Proof.
+  intros Hm Hf a r a' HA. unfold bind. destruct (m a) as [[x|e] a1] eqn:E.
+  - destruct (Hm _ _ _ HA E) as (H1&_&_). intros H2.
+    destruct (Hf x a1 r a' (proj1 H1) H2) as (H3&?&?).
+    split; [by apply (AStepD_trans a a1)|done].
+  - intros [= <- <-]. destruct (Hm _ _ _ HA E) as (?&H1&H2).
+    split; [done|]. split; [intros [= ->]; by apply H1|intros [= ->]; by apply H2].
+Qed.
+Lemma adsafe_mapM {A B} (f : A → MA B) (l : list A) : (∀ x, adsafe (f x)) → adsafe (mapM f l).
+Proof.
+  intros Hf. induction l as [|x l IH]; cbn [mapM]; [apply adsafe_ret|].
+  apply adsafe_bind; [apply Hf|intros b].
+  apply adsafe_bind; [done|intros bs; apply adsafe_ret].
+Qed.
+
+Lemma adsafe_lift {A} (m : MS A) : dsafe m → adsafe (lift m).
+Proof.
+  intros Hm a r a' ((HI&Hr&HC&Hv&Hf)&Ht). unfold lift.
+  destruct (m (mgr a)) as [r0 s'] eqn:E. intros [= <- <-].
+  destruct (Hm _ (hledger a) _ _ HI HC Hr Ht E) as (HI'&HC'&Hr'&Ht'&_&_&[_ Hk]&Hn1&Hn2).
+  assert (Hk' : ∀ h u, handles a !! h = Some u →
+            valid s' u ∧ ∀ ρ, denv s' u ρ = denv (mgr a) u ρ).
+  { intros h u Hu. pose proof (Hv h u Hu) as Hu0.
+    apply Hk; [apply Hu0|by apply (held_handle a h)|done]. }
+  split; [|done]. split; [|split; [|done]].
+  - split; [|done]. split; [done|]. split; [done|]. split; [done|]. split; [|done].
+    intros h u Hu. by apply (Hk' h).
+  - intros h u Hu. split; [done|]. by apply (Hk' h).
+Qed.
+
+(** a computation on the manager that only touches the harness fields *)
+Lemma adsafe_lift_tables {A} (m : MS A) :
+  (∀ s r s', m s = (r, s') →
+     same_tables s s' ∧ refc s' = refc s ∧ rctx s' = rctx s ∧ tape s' = tape s ∧
+     r ≠ Err ENeedsReordering ∧ r ≠ Err EOracle) →
+  adsafe (lift m).
+Proof.
+  intros Hm a r a' (HA&Ht). unfold lift. destruct (m (mgr a)) as [r0 s'] eqn:E.
+  intros [= <- <-]. destruct (Hm _ _ _ E) as (Hs&Hrf&Hrc&Htp&?&?).
+  destruct (AInvD_same a s' HA Hs Hrf) as [? ?]; [rewrite Hrc; apply HA|].
+  split; [|done]. split; [split; [done|cbn; congruence]|]. split; [done|cbn; lia].
+Qed.
+
+Lemma adsafe_wrap u : adsafe (wrap u).
+Proof.
+  intros a r a' HA. pose proof HA as ((HI&Hr&HC&Hv&Hf)&Ht). unfold wrap. cbn [bind get].
+  destruct (mem u (mgr a)) eqn:Hm; cbn [ensure bind ret raise]; cycle 1.
+  { intros [= <- <-]. split; [by apply AStepD_refl|done]. }
+  apply mem_valid in Hm. unfold bind at 1. unfold lift.
+  rewrite (incref_ok (mgr a) u HI Hm). cbn [bind modify ret]. intros [= <- <-].
+  assert (Hfresh : handles a !! next_hid a = None).
+  { destruct (handles a !! next_hid a) as [x|] eqn:E; [|done]. specialize (Hf _ _ E). lia. }
+  split; [|done]. split; [|split; [|cbn; lia]].
+  - split; [|done]. split; [by apply Inv_bump|]. split; [done|]. split.
+    { apply (Counts_ext _ (ledger_inc (hl (handles a)) (absn u))).
+      + intros n. unfold hledger. cbn. by rewrite hl_insert.
+      + by apply Counts_bump. }
+    split.
+    + intros h x. cbn. intros Hx. apply lookup_insert_Some in Hx as [[_ <-]|[_ Hx]].
+      * exact Hm.
+      * exact (Hv h x Hx).
+    + intros h x. cbn. intros Hx. apply lookup_insert_Some in Hx as [[<- _]|[_ Hx]]; [lia|].
+      specialize (Hf h x Hx). lia.
+  - intros h x Hx. cbn. split.
+    + rewrite lookup_insert_ne; [done|]. specialize (Hf h x Hx). lia.
+    + split; [exact (Hv h x Hx)|]. intros ρ. by apply denv_same.
+Qed.
+
+Lemma adsafe_node_of h : adsafe (node_of h).
+Proof.
+  unfold node_of. apply adsafe_bind; [apply adsafe_get|intros a; by apply adsafe_of_opt].
+Qed.
+Lemma adsafe_check_in u : adsafe (check_in u).
+Proof.
+  unfold check_in. apply adsafe_bind; [apply adsafe_get|intros a; by apply adsafe_ensure].
+Qed.
+Lemma adsafe_onode_of h : adsafe (onode_of h).
+Proof.
+  unfold onode_of. destruct h as [h|]; [|apply adsafe_ret].
+  apply adsafe_bind; [apply adsafe_node_of|intros u; apply adsafe_ret].
+Qed.
+
+Ltac adsafe_step :=
+  lazymatch goal with
+  | |- adsafe (ret _) => apply adsafe_ret
+  | |- adsafe (raise _) => apply adsafe_raise; discriminate
+  | |- adsafe get => apply adsafe_get
+  | |- adsafe (ensure _ _) => apply adsafe_ensure; discriminate
+  | |- adsafe (of_opt _ _) => apply adsafe_of_opt; discriminate
+  | |- adsafe (node_of _) => apply adsafe_node_of
+  | |- adsafe (onode_of _) => apply adsafe_onode_of
+  | |- adsafe (check_in _) => apply adsafe_check_in
+  | |- adsafe (wrap _) => apply adsafe_wrap
+  | |- adsafe (bind _ _) => apply adsafe_bind; [|intros ?]
+  | |- adsafe (mapM _ _) => apply adsafe_mapM; intros ?
+  | |- adsafe (if ?b then _ else _) => destruct b
+  | |- adsafe (match ?x with _ => _ end) => destruct x
+  | |- adsafe (let '(_, _) := ?x in _) => destruct x
+  end.
+Ltac adsafe := repeat first [assumption | adsafe_step].
+Ltac adlift := apply adsafe_lift;
+  first [ apply dsafe_var | apply dsafe_apply | apply dsafe_ite | apply dsafe_let
+        | apply dsafe_quantify | apply dsafe_cube
+        | apply dsafe_quiet; first [ apply quiet_support | apply quiet_getsuccZ
+                                   | apply quiet_var_at_level | apply quiet_ref ] ].
+
+Lemma adsafe_a_var v : adsafe (a_var v).
+Proof. unfold a_var. adsafe. adlift. Qed.
+Lemma adsafe_a_apply op hu hv hw : adsafe (a_apply op hu hv hw).
+Proof. unfold a_apply. adsafe; adlift. Qed.
+Lemma adsafe_a_ite hg hu hv : adsafe (a_ite hg hu hv).
+Proof. unfold a_ite. adsafe. adlift. Qed.
+Lemma adsafe_a_let d hu : adsafe (a_let d hu).
+Proof. unfold a_let. adsafe; adlift. Qed.
+Lemma adsafe_a_quantify hu q fa : adsafe (a_quantify hu q fa).
+Proof. unfold a_quantify. adsafe. adlift. Qed.
+Lemma adsafe_a_cube d : adsafe (a_cube d).
+Proof. unfold a_cube. adsafe. adlift. Qed.
+Lemma adsafe_a_support hu : adsafe (a_support hu).
+Proof. unfold a_support. adsafe. adlift. Qed.
+Lemma adsafe_f_apply op hu hv : adsafe (f_apply op hu hv).
+Proof. unfold f_apply. adsafe. adlift. Qed.
+Lemma adsafe_f_eq hu hv : adsafe (f_eq hu hv).
+Proof. unfold f_eq. adsafe. Qed.
+Lemma adsafe_f_child hi hu : adsafe (f_child hi hu).
+Proof. unfold f_child. adsafe. adlift. Qed.
+Lemma adsafe_a_succ hu : adsafe (a_succ hu).
+Proof. unfold a_succ. adsafe. adlift. Qed.
+Lemma adsafe_f_level hu : adsafe (f_level hu).
+Proof. unfold f_level. adsafe. adlift. Qed.
+Lemma adsafe_f_var hu : adsafe (f_var hu).
+Proof. unfold f_var. adsafe; adlift. Qed.
+Lemma adsafe_f_ref hu : adsafe (f_ref hu).
+Proof. unfold f_ref. adsafe. adlift. Qed.
+Lemma adsafe_f_negated hu : adsafe (f_negated hu).
+Proof. unfold f_negated. adsafe. Qed.
